@@ -515,7 +515,7 @@ def _exec_step(W, st, model, log, stats, bump, seed):
             st["nshank"] = keys[:-1]
         for key in ("post_noop_call", "repeat_forced", "pre_noop_call"):
             st[key] = False
-    if st.get("repeat_forced") and (st.get("fault") or W.w["kind"] not in ("NP24", "NP24_1sh", "NP21") or st.get("delete_original")
+    if st.get("repeat_forced") and ((st.get("fault") and not st["fault"].get("covered_by_post_check")) or W.w["kind"] not in ("NP24", "NP24_1sh", "NP21") or st.get("delete_original")
                                     or (W.w["kind"] == "NP21" and st.get("compress") and W.orig_path() == W.bin)):
         st["repeat_forced"] = False      # the original must still be there, in the same form, for the second call
     if st.get("post_noop_call") and (st.get("fault") or W.w["kind"] not in ("NP24", "NP24_1sh", "NP21") or st.get("delete_original")):
@@ -535,6 +535,8 @@ def _exec_step(W, st, model, log, stats, bump, seed):
                                     occ=fault.get("occ"), tear=fault.get("tear"))
         if fault and nop:
             fault.pop("persistent", None)
+        if fault and st["fault"].get("covered_by_post_check"):
+            fault["covered_by_post_check"] = True
         st["fault"] = fault
     before = snapshot(W.root)
     sig_before = W.tree_sig()
@@ -670,6 +672,12 @@ def _exec_step(W, st, model, log, stats, bump, seed):
                 model["completed"] = True
                 model["dirty"] = False
                 model["opts_last"] = opts
+    elif (fired and fired["kind"] == "corrupt" and exc is None and status == 1 and again == 1 and st["post_check"]
+          and (st.get("fault") or {}).get("covered_by_post_check") and kind in ("NP24", "NP24_1sh")):
+        # a byte that the post-check compares was silently corrupted in the second (forced) call on one converter object, yet
+        # that call reported success: with verification asked for, a run that reports 1 must have left a valid set
+        bump("probes", "corruption_in_forced_rerun_on_same_object_reported_success")
+        _check_outputs(W, st, sig0 + ":same-object-forced-unverified", ctx)
     elif not fired and exc is not None:
         # the system failed although no fault was injected
         tolerated = False     # (until session 3 a plain run over the debris of an interrupted run was allowed to raise; the pinned tree never does)
@@ -759,6 +767,15 @@ def _verification_sweep(tier, verif_seed):
                 st = {"op": "process", "overwrite": False, "post_check": True, "compress": False, "delete_original": True,
                       "fault": {"auto": True, "rseed": s % 100000, "kinds": ["corrupt"], "only": "tofile:.imec0.ap.bin", "occ": occ, "tear": tear}}
                 yield {"property": PROP, "seed": s, "world": ww, "steps": [st], "closing": False, "sweep_of": 100 + b}
+        # a verified run and then a FORCED re-run on the same converter object (original kept); the corrupted byte lands in
+        # the SECOND call's output at a position the post-check compares: a verification flag that outlives the run which
+        # earned it lets the second call report success over output nobody compared (seeded change C04-r18A)
+        for occ, tear in ((-4, 1.0), ("last", 0.5)):
+            ww = dict(w, ns=m * w["nwindow"])
+            st = {"op": "process", "overwrite": False, "post_check": True, "compress": False, "delete_original": False, "repeat_forced": True,
+                  "fault": {"auto": True, "rseed": s % 100000, "kinds": ["corrupt"], "only": "tofile:.imec0.ap.bin", "occ": occ, "tear": tear,
+                            "covered_by_post_check": True}}
+            yield {"property": PROP, "seed": s, "world": ww, "steps": [st], "closing": False, "sweep_of": 300 + b}
         # a recording of a few seconds (few channels keep it small): thresholds expressed in seconds, not in windows
         for ns_big in ((66001,) if tier == "quick" else (66001, 60000, 127013)):
             for occ, tear in ((-4, 1.0), (-4, 0.5)):
